@@ -215,7 +215,7 @@ var _ yaml.M
 const c05SrcU2 = `package u
 
 import (
-	rd "zzmod/yamlv3"
+	rd ` + "`zzmod/yamlv3`" + ` // an import path written as a raw string literal
 )
 
 //«a9»
